@@ -47,7 +47,8 @@ Errors(r) ==
     ELSE IF r.result # "ok" \/ r.solo_result # "ok" THEN {}       \* set-up failed: not this property's business
     ELSE UNION {TaskErrors(r, t) : t \in 1..Len(r.tasks)}
 
-Diverge(r) == IF r.result = "ok" /\ r.max_in_flight > r.slots THEN {<<"in_flight", r.max_in_flight, r.slots>>} ELSE {}
+\* (an operation that is given up frees its slot while its frame is still on the wire: no bound then)
+Diverge(r) == IF r.result = "ok" /\ ~r.cancels /\ r.max_in_flight > r.slots THEN {<<"in_flight", r.max_in_flight, r.slots>>} ELSE {}
 
 TInit == l = 1
 TNext ==
